@@ -13,7 +13,7 @@ m={
  "engines":[{"name":"gosym","path":"/verif/gosym","serves_properties":sorted(claimed.keys()),
              "kind_free_text":"bounded symbolic executor for Go SSA (go/ssa v0.50.0) emitting SMT-LIB2 to z3 4.8.12 (second opinions: z3 5.1, cvc5 1.0); path forking with solver-decided feasibility, obligations pc∧¬assert, counterexample self-replay and native go test -overlay replay"}],
  "checks":[], "not_applicable":[],
- "notes":"See DESIGN.md. A check exits 0 (all obligations unsat within the stated bounds, witnesses reached), 1 (VIOLATION, counterexample replayed) or 2 (inconclusive: timeout, budget, unsupported construct, harness no longer compiles) - 2 is never reported as success."
+ "notes":"See DESIGN.md. A check exits 0 (all obligations unsat within the stated bounds, witnesses reached), 1 (VIOLATION, counterexample replayed) or 2 (inconclusive: timeout, budget, unsupported construct, harness no longer compiles) - 2 is never reported as success. All 20 properties are claimed, several partially: the clauses that solver-based checking of the real code cannot reach are named in each check's level_note and in DESIGN.md I.5 - C07 recall floor on large indexes (statistical), C13 data races and latency, C19 malformed / type-confused bodies and the body-size limit (encoding/json and net/http internals), C18 compressed-versus-float32 distance error bound, gob snapshot fidelity and mmap arena contents (replaced by models). ./replay <file> re-executes a recorded counterexample against the current tree."
 }
 for p in props:
     i=p['id']
